@@ -9,6 +9,9 @@ import os
 import shutil
 import tempfile
 
+# tmpfs keeps 64-bit timestamps (a file can carry an mtime datetime cannot represent) and is fast
+SCRATCH = '/dev/shm' if os.path.isdir('/dev/shm') and os.access('/dev/shm', os.W_OK) else None
+
 import clastic.static as cstatic
 import clastic.meta as cmeta
 from clastic import Application, Response, Route, GET, Middleware, render_basic, redirect
@@ -25,10 +28,10 @@ from sim.core.seams import Seams, SimClock
 from sim.core.fsseam import FsSeam
 from sim.core.hoststub import HostStub
 
-ROUTES = ['ok', 'stream', 'ctx', 'static-small', 'static-big', 'static-missing', 'branch', 'missing', 'm405', 'boom',
+ROUTES = ['ok', 'stream', 'ctx', 'static-small', 'static-big', 'static-missing', 'static-oddtime', 'static-oddtime', 'branch', 'missing', 'm405', 'boom',
           'http403', 'meta', 'meta-json', 'gz', 'cache', 'reroute-raise', 'reroute-ep', 'sub-ok', 'empty', 'bytes-big']
 PATH = {'ok': '/ok', 'stream': '/stream', 'ctx': '/ctx', 'static-small': '/s/a.txt', 'static-big': '/s/big.bin',
-        'static-missing': '/s/nope', 'branch': '/b', 'missing': '/missing', 'm405': '/g', 'boom': '/boom',
+        'static-missing': '/s/nope', 'static-oddtime': '/s/odd.txt', 'branch': '/b', 'missing': '/missing', 'm405': '/g', 'boom': '/boom',
         'http403': '/forbidden', 'meta': '/meta/', 'meta-json': '/meta/json/', 'gz': '/gz', 'cache': '/cache',
         'reroute-raise': '/rr', 'reroute-ep': '/r2', 'sub-ok': '/in/x', 'empty': '/empty', 'bytes-big': '/big'}
 METHODS = ['GET', 'GET', 'HEAD', 'POST', 'OPTIONS']
@@ -205,12 +208,15 @@ class C13(Check):
         res = RunResult()
         cfg = plan['config']
         K = 'C13/'
-        root = tempfile.mkdtemp(prefix='simgw-')
+        root = tempfile.mkdtemp(prefix='simgw-', dir=SCRATCH)
         try:
             with open(os.path.join(root, 'a.txt'), 'wb') as f:
                 f.write(b'small text file\n')
             with open(os.path.join(root, 'big.bin'), 'wb') as f:
                 f.write(bytes(range(256)) * 200)
+            with open(os.path.join(root, 'odd.txt'), 'wb') as f:
+                f.write(b'a file from the far future\n')
+            os.utime(os.path.join(root, 'odd.txt'), (2.6e11, 2.6e11))      # year ~10200: not a datetime (kept by tmpfs)
             seam = FsSeam()
             target = Target()
             with Seams() as sm:
@@ -327,6 +333,11 @@ class C13(Check):
                   'branch': 302, 'missing': 404, 'boom': 500, 'http403': 403, 'meta': 200, 'meta-json': 200, 'gz': 200,
                   'cache': 200, 'sub-ok': 200, 'empty': 200, 'bytes-big': 200}
         want = expect.get(route)
+        if route == 'static-oddtime':
+            res.probe('static-file-with-unrepresentable-mtime')
+            if ex.code not in (200, 403, 404):
+                res.violate(K + 'status-%s@static-oddtime' % ex.code, ctx + ' -> %s' % ex.status, step)
+                return
         if route == 'm405':
             want = 200 if method in ('GET', 'HEAD') else 405
         if route in ('cache',) and 'If-None-Match' in op['headers']:
